@@ -21,6 +21,7 @@ import (
 	"sort"
 	"strconv"
 	"strings"
+	"sync"
 	"time"
 	"unicode/utf8"
 
@@ -157,7 +158,7 @@ type Rec struct {
 // of the registrations in compose shows up as a disagreement.
 const ckptBase = 9000
 
-var ckptTypes = compose.VerifC12CheckpointTypes()
+var ckptTypes = wbCheckpointTypes()
 var ckptStructs = []reflect.Type{ckptTypes["checkpoint"], ckptTypes["dag"], ckptTypes["pregel"]}
 
 func namedInfoOf(n int) (namedInfo, bool) {
@@ -398,10 +399,10 @@ func newWorld(structs []SDecl) (w *world, err error) {
 		w.rev[st] = d.ID
 		if d.Reg {
 			h := fmt.Sprintf("c12_so_%x", fnv(st.String()))
-			if e := compose.VerifC12RegisterType(h, st); e != nil {
+			if e := wbRegisterType(h, st); e != nil {
 				return nil, e
 			}
-		} else if _, isReg := compose.VerifC12Registered(st); isReg {
+		} else if _, isReg := wbRegistered(st); isReg {
 			return nil, fmt.Errorf("struct %d declared unregistered but its Go type is registered", d.ID)
 		}
 		w.decls = append(w.decls, d)
@@ -1096,12 +1097,12 @@ func jsonCoerce(s string) string {
 type eqMode int
 
 const (
-	eqExact    eqMode = iota
-	eqCoerce          // F-C12c: string values modulo jsonCoerce
-	eqRetype          // F-C12g: an unregistered defined container type may come back as its unnamed type
-	eqPtrIface        // F-C12h: what a pointer to an interface points to is not compared
-	eqMapKey          // F-C12j: maps whose key type is not of basic kind are not compared
-	eqRetypePtr       // F-C12m: a defined pointer type may come back as its unnamed pointer type
+	eqExact     eqMode = iota
+	eqCoerce           // F-C12c: string values modulo jsonCoerce
+	eqRetype           // F-C12g: an unregistered defined container type may come back as its unnamed type
+	eqPtrIface         // F-C12h: what a pointer to an interface points to is not compared
+	eqMapKey           // F-C12j: maps whose key type is not of basic kind are not compared
+	eqRetypePtr        // F-C12m: a defined pointer type may come back as its unnamed pointer type
 )
 
 func unregisteredDefinedContainer(t reflect.Type) bool {
@@ -1240,15 +1241,16 @@ type Case struct {
 	Structs   []SDecl  `json:"structs,omitempty"`
 	TopNil    bool     `json:"topnil,omitempty"` // Marshal(nil)
 	Probe     string   `json:"probe,omitempty"`  // registry probe: "dup-key" | "dup-type" (GenericRegister must refuse)
-	BB        int      `json:"bb,omitempty"`     // black-box companion: 1 = Pregel graph, 2 = DAG graph, 3 = DAG fan-in, 4..6 = the same through Stream, 7..10 = the value itself as pending input of type any, 11..14 = a nil pending input, 15..16 = an empty stream as pending input, 17..20 = the interrupt inside a nested graph with its own state (see runBB, runBBNested)
+	BB        int      `json:"bb,omitempty"`     // black-box companion: 1 = Pregel graph, 2 = DAG graph, 3 = DAG fan-in, 4..6 = the same through Stream, 7..10 = the value itself as pending input of type any, 11..14 = a nil pending input, 15..16 = an empty stream as pending input, 17..20 = the interrupt inside a nested graph with its own state, 21..24 = two successive interrupts of one run (the second checkpoint is written by a resumed run), twice on one compiled graph under two checkpoint ids, 25..32 = the value (25..28) or a nil answer (29..32) is held in a CHANNEL at the interrupt because a sibling node asked for InterruptAndRerun in the same step (see runBB, runBBNested, runBBTwice, runBBRerun)
 	Conv      int      `json:"conv,omitempty"`   // stream conversion of a pending input around an interrupt: the stream has no chunk (1, 4), the one chunk nil (2, 5), the one chunk that is the value (3, 6); resumed through Stream (1..3) or Invoke (4..6); 7..10: written by a run without streams, the pending input is nil (7, 9) or the value (8, 10), resumed through Stream (7, 8) or Invoke (9, 10) (see runConv)
+	Par       int      `json:"par,omitempty"`    // after the sequential round trip: this many goroutines marshal and unmarshal the same value at the same time, parRounds times each; every one of them must restore the value (runs of one process write their checkpoints concurrently)
 	T         *Ty      `json:"t,omitempty"`
 	V         *V       `json:"v,omitempty"`
 	Malformed []string `json:"malformed,omitempty"` // why the value is not in the supported universe
 }
 
 type Obs struct {
-	Class string `json:"class"` // ok-equal | ok-different | enc-error | dec-error | panic | bad-case
+	Class string `json:"class"` // ok-equal | ok-different | enc-error | dec-error | panic | lost | skipped | bad-case
 	Type  string `json:"type,omitempty"`
 	Val   string `json:"val,omitempty"`
 	Msg   string `json:"msg,omitempty"`
@@ -1441,6 +1443,9 @@ func coqFixed() string {
 
 const decodeRepeats = 4
 
+// parRounds: round trips per goroutine of a concurrent case (Case.Par)
+const parRounds = 6
+
 type memStore struct{ m map[string][]byte }
 
 func (s *memStore) Get(_ context.Context, id string) ([]byte, bool, error) {
@@ -1459,6 +1464,12 @@ func (s *memStore) Set(_ context.Context, id string, b []byte) error {
 // compared with what was there before the interrupt.
 // Returns the restored state (what the model is compared with) and the other restored copies.
 func runBB(mode int, val any) (state any, copies []any, bytes int, phase string, err error) {
+	if mode > 24 {
+		return runBBRerun(mode-25, val)
+	}
+	if mode > 20 {
+		return runBBTwice(mode-21, val)
+	}
 	if mode > 16 {
 		return runBBNested(mode-17, val)
 	}
@@ -1620,6 +1631,9 @@ func runBB(mode int, val any) (state any, copies []any, bytes int, phase string,
 	if _, ok := compose.ExtractInterruptInfo(err); !ok {
 		return nil, nil, 0, "interrupt", err // the checkpoint could not be written
 	}
+	if _, ok := st.m["cp"]; !ok {
+		return nil, nil, 0, "lost", errCheckpointLost
+	}
 	bytes = len(st.m["cp"])
 	out, err := call(map[string]any{"x": "ignored"}, compose.WithCheckPointID("cp"),
 		compose.WithStateModifier(func(_ context.Context, _ compose.NodePath, s any) error {
@@ -1751,6 +1765,9 @@ func runBBNested(k int, val any) (state any, copies []any, bytes int, phase stri
 	if _, ok := compose.ExtractInterruptInfo(err); !ok {
 		return nil, nil, 0, "interrupt", err // the checkpoint could not be written
 	}
+	if _, ok := st.m["cp"]; !ok {
+		return nil, nil, 0, "lost", errCheckpointLost
+	}
 	bytes = len(st.m["cp"])
 	var innerState any
 	innerSeen := 0
@@ -1780,6 +1797,295 @@ func runBBNested(k int, val any) (state any, copies []any, bytes int, phase stri
 	return state, []any{ih.V, ih.M["w"], bInput["v"], out.V}, bytes, "", nil
 }
 
+// errCheckpointLost: a run reported an interrupt (not an error) although nothing was written to the store
+var errCheckpointLost = fmt.Errorf("the run reported an interrupt, not an error, but the store holds no checkpoint under the id")
+
+// bbModes: the number of modes of the black-box companion (runBB)
+const bbModes = 32
+
+// runBBTwice: modes 21..24.  One run is interrupted twice, and the compiled graph is used for two runs.
+// START -> a -> b -> c -> END with state *Holder, interrupts before b and before c.  Node a puts the
+// value into the state and into its output; the run stops before b (first checkpoint: written by a
+// fresh run), is resumed, b hands the value on, the run stops before c (second checkpoint: written by
+// a RESUMED run, i.e. from a state and channels that were themselves restored, under the same id,
+// over the first one), is resumed again and ends.  Then the same compiled graph does all of it again
+// under a second checkpoint id, the first one still in the store.  Compared: the state at the first
+// resume (returned as state, the record the model is asked about), and as copies the state's two
+// members at every later resume, the pending inputs b and c receive and the outputs - of both runs;
+// the last resume of each run is done twice (the checkpoint stays in the store: a retry).
+// k: 0 Pregel / Invoke, 1 DAG / Invoke, 2 Pregel / Stream, 3 DAG / Stream.
+func runBBTwice(k int, val any) (state any, copies []any, bytes int, phase string, err error) {
+	ctx := context.Background()
+	stream, dag := k >= 2, k%2 == 1
+	g := compose.NewGraph[map[string]any, *Holder](compose.WithGenLocalState(func(ctx context.Context) *Holder {
+		return &Holder{}
+	}))
+	var bInput, cInput map[string]any
+	bCalls, cCalls := 0, 0
+	if err = g.AddLambdaNode("a", compose.InvokableLambda(func(ctx context.Context, in map[string]any) (map[string]any, error) {
+		e := compose.ProcessState[*Holder](ctx, func(_ context.Context, h *Holder) error {
+			h.V = val
+			h.M = map[string]any{"v": val}
+			return nil
+		})
+		return map[string]any{"v": val, "x": in["x"]}, e
+	})); err != nil {
+		return nil, nil, 0, "build", err
+	}
+	if err = g.AddLambdaNode("b", compose.InvokableLambda(func(ctx context.Context, in map[string]any) (map[string]any, error) {
+		bInput = in
+		bCalls++
+		return map[string]any{"v": in["v"], "x": in["x"], "b": "done"}, nil
+	})); err != nil {
+		return nil, nil, 0, "build", err
+	}
+	if err = g.AddLambdaNode("c", compose.InvokableLambda(func(ctx context.Context, in map[string]any) (*Holder, error) {
+		cInput = in
+		cCalls++
+		return &Holder{V: in["v"], M: in}, nil
+	})); err != nil {
+		return nil, nil, 0, "build", err
+	}
+	for _, e := range [][2]string{{compose.START, "a"}, {"a", "b"}, {"b", "c"}, {"c", compose.END}} {
+		if err = g.AddEdge(e[0], e[1]); err != nil {
+			return nil, nil, 0, "build", err
+		}
+	}
+	st := &memStore{m: map[string][]byte{}}
+	opts := []compose.GraphCompileOption{compose.WithCheckPointStore(st), compose.WithInterruptBeforeNodes([]string{"b", "c"})}
+	if dag {
+		opts = append(opts, compose.WithNodeTriggerMode(compose.AllPredecessor))
+	}
+	r, err := g.Compile(ctx, opts...)
+	if err != nil {
+		return nil, nil, 0, "build", err
+	}
+	call := func(in map[string]any, opts ...compose.Option) (*Holder, error) {
+		if !stream {
+			return r.Invoke(ctx, in, opts...)
+		}
+		sr, err := r.Stream(ctx, in, opts...)
+		if err != nil {
+			return nil, err
+		}
+		defer sr.Close()
+		var out *Holder
+		for {
+			chunk, err := sr.Recv()
+			if err == io.EOF {
+				return out, nil
+			}
+			if err != nil {
+				return nil, err
+			}
+			if out != nil {
+				return nil, fmt.Errorf("more than one chunk")
+			}
+			out = chunk
+		}
+	}
+	for pass, id := range []string{"cp", "cp-second-run"} {
+		bInput, cInput = nil, nil
+		bCalls, cCalls = 0, 0
+		x := fmt.Sprintf("in%d", pass)
+		_, err = call(map[string]any{"x": x}, compose.WithCheckPointID(id))
+		if err == nil {
+			return nil, nil, 0, "build", fmt.Errorf("the run was not interrupted")
+		}
+		if _, ok := compose.ExtractInterruptInfo(err); !ok {
+			return nil, nil, 0, "interrupt", err // the checkpoint could not be written
+		}
+		if _, ok := st.m[id]; !ok {
+			return nil, nil, 0, "lost", errCheckpointLost
+		}
+		if pass == 0 {
+			bytes = len(st.m[id])
+		}
+		var seen []any
+		modifier := compose.WithStateModifier(func(_ context.Context, _ compose.NodePath, s any) error {
+			seen = append(seen, s)
+			return nil
+		})
+		// first resume: b runs on its pending input, the run stops again before c
+		_, err = call(map[string]any{"x": "ignored"}, compose.WithCheckPointID(id), modifier)
+		if err == nil {
+			return state, nil, bytes, "resume", fmt.Errorf("the resumed run was not interrupted before c")
+		}
+		if _, ok := compose.ExtractInterruptInfo(err); !ok {
+			return state, nil, bytes, "resume", err
+		}
+		if len(seen) != 1 || bInput == nil || bInput["x"] != x || cInput != nil {
+			return state, nil, bytes, "resume", fmt.Errorf("first resume of run %d: state modifier called %d times, b received %v, c received %v", pass, len(seen), bInput, cInput)
+		}
+		// second resume: from the checkpoint the resumed run wrote
+		out, err := call(map[string]any{"x": "ignored"}, compose.WithCheckPointID(id), modifier)
+		if err != nil {
+			return state, nil, bytes, "resume", err
+		}
+		if len(seen) != 2 || cInput == nil || out == nil || cInput["x"] != x || cInput["b"] != "done" || out.M["x"] != x || bCalls != 1 || cCalls != 1 {
+			return state, nil, bytes, "resume", fmt.Errorf("second resume of run %d: state modifier called %d times, c received %v, output %v, b ran %d times, c %d times", pass, len(seen), cInput, out, bCalls, cCalls)
+		}
+		// the checkpoint stays in the store: resuming from it once more (a retry) must restore the same
+		// state and pending input again - reading a checkpoint does not use it up or change it
+		cInput = nil
+		out2, err := call(map[string]any{"x": "ignored"}, compose.WithCheckPointID(id), modifier)
+		if err != nil {
+			return state, nil, bytes, "resume", fmt.Errorf("resuming a second time from the same stored checkpoint: %w", err)
+		}
+		if len(seen) != 3 || cInput == nil || out2 == nil || cInput["x"] != x || cInput["b"] != "done" || out2.M["x"] != x || bCalls != 1 || cCalls != 2 {
+			return state, nil, bytes, "resume", fmt.Errorf("second resume of run %d repeated: state modifier called %d times, c received %v, output %v, b ran %d times, c %d times", pass, len(seen), cInput, out2, bCalls, cCalls)
+		}
+		copies = append(copies, cInput["v"], out2.V)
+		for i, s := range seen {
+			if pass == 0 && i == 0 {
+				state = s
+				continue
+			}
+			h, ok := s.(*Holder)
+			if !ok || h == nil || len(h.M) != 1 {
+				return state, nil, bytes, "resume", fmt.Errorf("resume %d of run %d: the state came back as %T / with another number of members in M", i+1, pass, s)
+			}
+			copies = append(copies, h.V, h.M["v"])
+		}
+		copies = append(copies, bInput["v"], cInput["v"], out.V)
+	}
+	return state, copies, bytes, "", nil
+}
+
+// runBBRerun: modes 25..32.  The value is a CHANNEL value at the interrupt, not a pending input: START -> a -> b -> END
+// and START -> r -> END; in the first step a answers (the value, or nil in modes 29..32: k >= 4) and puts the
+// value into the state while its sibling r asks for InterruptAndRerun, so a's answer is folded into the channel
+// of b and written with the checkpoint; at the resume r runs again (on its restored input) and b receives what
+// a answered.  Compared: the state (returned as state), b's input and the output member that carries it
+// (as copies; for the nil variant they must be nil), how often b and r ran.
+// k%4: 0 Pregel / Invoke, 1 DAG / Invoke, 2 Pregel / Stream, 3 DAG / Stream.
+func runBBRerun(k int, val any) (state any, copies []any, bytes int, phase string, err error) {
+	ctx := context.Background()
+	answerNil := k >= 4
+	k %= 4
+	stream, dag := k >= 2, k%2 == 1
+	g := compose.NewGraph[map[string]any, map[string]any](compose.WithGenLocalState(func(ctx context.Context) *Holder {
+		return &Holder{}
+	}))
+	var bInput any
+	bCalls, rCalls := 0, 0
+	var rInput map[string]any
+	if err = g.AddLambdaNode("a", compose.InvokableLambda(func(ctx context.Context, in map[string]any) (any, error) {
+		e := compose.ProcessState[*Holder](ctx, func(_ context.Context, h *Holder) error {
+			h.V = val
+			h.M = map[string]any{"v": val}
+			return nil
+		})
+		if answerNil {
+			return nil, e
+		}
+		return val, e
+	})); err != nil {
+		return nil, nil, 0, "build", err
+	}
+	if err = g.AddLambdaNode("b", compose.InvokableLambda(func(ctx context.Context, in any) (map[string]any, error) {
+		bInput = in
+		bCalls++
+		return map[string]any{"v": in}, nil
+	})); err != nil {
+		return nil, nil, 0, "build", err
+	}
+	if err = g.AddLambdaNode("r", compose.InvokableLambda(func(ctx context.Context, in map[string]any) (map[string]any, error) {
+		rCalls++
+		if rCalls == 1 {
+			return nil, compose.InterruptAndRerun
+		}
+		rInput = in
+		return map[string]any{"r": "rerun"}, nil
+	})); err != nil {
+		return nil, nil, 0, "build", err
+	}
+	// (r2 keeps r's branch as long as a's: in Pregel mode END is reached by the first branch that gets there)
+	if err = g.AddLambdaNode("r2", compose.InvokableLambda(func(ctx context.Context, in map[string]any) (map[string]any, error) {
+		return map[string]any{"r": in["r"]}, nil
+	})); err != nil {
+		return nil, nil, 0, "build", err
+	}
+	for _, e := range [][2]string{{compose.START, "a"}, {"a", "b"}, {"b", compose.END}, {compose.START, "r"}, {"r", "r2"}, {"r2", compose.END}} {
+		if err = g.AddEdge(e[0], e[1]); err != nil {
+			return nil, nil, 0, "build", err
+		}
+	}
+	st := &memStore{m: map[string][]byte{}}
+	opts := []compose.GraphCompileOption{compose.WithCheckPointStore(st)}
+	if dag {
+		opts = append(opts, compose.WithNodeTriggerMode(compose.AllPredecessor))
+	}
+	r, err := g.Compile(ctx, opts...)
+	if err != nil {
+		return nil, nil, 0, "build", err
+	}
+	call := func(in map[string]any, opts ...compose.Option) (map[string]any, error) {
+		if !stream {
+			return r.Invoke(ctx, in, opts...)
+		}
+		sr, err := r.Stream(ctx, in, opts...)
+		if err != nil {
+			return nil, err
+		}
+		defer sr.Close()
+		out := map[string]any{}
+		for {
+			chunk, err := sr.Recv()
+			if err == io.EOF {
+				return out, nil
+			}
+			if err != nil {
+				return nil, err
+			}
+			for k, v := range chunk {
+				if _, dup := out[k]; dup {
+					return nil, fmt.Errorf("output member %s delivered twice", k)
+				}
+				out[k] = v
+			}
+		}
+	}
+	_, err = call(map[string]any{"x": "in"}, compose.WithCheckPointID("cp"))
+	if err == nil {
+		return nil, nil, 0, "build", fmt.Errorf("the run was not interrupted")
+	}
+	if _, ok := compose.ExtractInterruptInfo(err); !ok {
+		return nil, nil, 0, "interrupt", err // the checkpoint could not be written
+	}
+	if _, ok := st.m["cp"]; !ok {
+		return nil, nil, 0, "lost", errCheckpointLost
+	}
+	bytes = len(st.m["cp"])
+	if bCalls != 0 {
+		return nil, nil, bytes, "build", fmt.Errorf("node b ran before the interrupt")
+	}
+	seen := 0
+	out, err := call(map[string]any{"x": "ignored"}, compose.WithCheckPointID("cp"),
+		compose.WithStateModifier(func(_ context.Context, _ compose.NodePath, s any) error {
+			state = s
+			seen++
+			return nil
+		}))
+	if err != nil {
+		return nil, nil, bytes, "resume", err
+	}
+	// (a node that asked for InterruptAndRerun is run again on the zero value of its input type, by design: rInput is not compared)
+	if seen != 1 || bCalls != 1 || rCalls != 2 || out == nil || out["r"] != "rerun" {
+		return state, nil, bytes, "resume", fmt.Errorf("resume with a rerun sibling: state modifier called %d times, b ran %d times, r %d times on %v, output %v", seen, bCalls, rCalls, rInput, out)
+	}
+	if _, ok := out["v"]; !ok {
+		return state, nil, bytes, "resume", fmt.Errorf("the output has no member v: %v", out)
+	}
+	if answerNil {
+		if bInput != nil || out["v"] != nil {
+			return state, nil, bytes, "resume", fmt.Errorf("node b did not receive the nil value held in its channel: input %T, output member %T", bInput, out["v"])
+		}
+		return state, nil, bytes, "", nil
+	}
+	return state, []any{bInput, out["v"]}, bytes, "", nil
+}
+
 type probeFresh int
 
 // fresh types for registrations that must succeed (once per process)
@@ -1802,11 +2108,11 @@ type probeDef struct {
 
 func rtOK(v any) func() bool {
 	return func() bool {
-		data, err := compose.VerifC12Marshal(v)
+		data, err := wbMarshal(v)
 		if err != nil {
 			return false
 		}
-		out, err := compose.VerifC12Unmarshal(data)
+		out, err := wbUnmarshal(data)
 		return err == nil && reflect.DeepEqual(out, v)
 	}
 }
@@ -1853,7 +2159,7 @@ func runProbe(c *Case) (res lib.Result) {
 		res.Oracle, res.Sig = "harness could not build the case", "bad-case"
 		return
 	}
-	_, typeTaken := compose.VerifC12Registered(pd.rt)
+	_, typeTaken := wbRegistered(pd.rt)
 	wantRefused := probeKeys[pd.key] || typeTaken
 	extra := lib.CoqList(probeRegistered)
 	var err error
@@ -1903,7 +2209,77 @@ func runProbe(c *Case) (res lib.Result) {
 	return
 }
 
+// usesCkpt: the type mentions one of compose's private checkpoint record types
+func (t *Ty) usesCkpt() bool {
+	if t == nil {
+		return false
+	}
+	if (t.K == "struct" || t.K == "named" || t.K == "iface") && t.N >= ckptBase {
+		return true
+	}
+	return t.E.usesCkpt() || t.Key.usesCkpt()
+}
+
+func (v *V) usesCkpt() bool {
+	if v == nil {
+		return false
+	}
+	if v.DT.usesCkpt() || v.P.usesCkpt() || v.DV.usesCkpt() {
+		return true
+	}
+	for _, x := range v.F {
+		if x.usesCkpt() {
+			return true
+		}
+	}
+	for _, x := range v.E {
+		if x.usesCkpt() {
+			return true
+		}
+	}
+	for _, kv := range v.KV {
+		if kv[0].usesCkpt() || kv[1].usesCkpt() {
+			return true
+		}
+	}
+	return false
+}
+
+// needsWhitebox: why a case cannot be run through the public API alone ("" = it can)
+func needsWhitebox(c *Case) string {
+	switch {
+	case c.Probe != "":
+		return "registry-probe"
+	case c.TopNil:
+		return "marshal-nil"
+	case len(c.Structs) > 0:
+		return "reflect-structof-type"
+	case c.T.usesCkpt() || c.V.usesCkpt():
+		return "compose-record-type"
+	}
+	return ""
+}
+
 func runCase(c *Case) (res lib.Result) {
+	if !whitebox {
+		// black-box tie (wb_off.go): the case goes through a real interrupted and resumed graph, or is skipped
+		if why := needsWhitebox(c); why != "" {
+			res.Obs = Obs{Class: "skipped", Msg: "needs the white-box group: " + why}
+			res.Tags = []string{"class:skipped", "whitebox:skipped-" + why}
+			return
+		}
+		cc := *c
+		cc.Conv, cc.Par = 0, 0
+		if cc.BB == 0 {
+			js, _ := json.Marshal(struct {
+				T *Ty
+				V *V
+			}{c.T, c.V})
+			cc.BB = 1 + int(fnv(string(js))%bbModes)
+		}
+		c = &cc
+		defer func() { res.Tags = append(res.Tags, "whitebox:unavailable") }()
+	}
 	if c.Probe != "" {
 		return runProbe(c)
 	}
@@ -1944,6 +2320,7 @@ func runCase(c *Case) (res lib.Result) {
 	var out any
 	viaCP := !c.TopNil && c.BB == 0 && rv.Type() == reflect.PointerTo(ckptTypes["checkpoint"])
 	var bbCopies []any
+	parNote := ""
 	if c.BB != 0 && !c.TopNil {
 		// the model is asked about the state record: &Holder{V: val, M: {"v": val}}
 		rv = reflect.ValueOf(&Holder{V: in, M: map[string]any{"v": in}})
@@ -1957,6 +2334,8 @@ func runCase(c *Case) (res lib.Result) {
 				o = Obs{Class: "enc-error", Msg: err.Error()}
 			case err != nil && phase == "resume":
 				o = Obs{Class: "dec-error", Msg: err.Error(), Bytes: n}
+			case err != nil && phase == "lost":
+				o = Obs{Class: "lost", Msg: err.Error()}
 			case err != nil:
 				panic("black-box harness: " + err.Error())
 			default:
@@ -1967,7 +2346,7 @@ func runCase(c *Case) (res lib.Result) {
 		if viaCP {
 			// a *checkpoint goes through checkPointer.set / get and a store, as in a run: the store
 			// holds an earlier checkpoint under the same id and receives another one under another id
-			got, n, setErr, getErr := compose.VerifC12CheckpointScenario(in)
+			got, n, setErr, getErr := wbCheckpointScenario(in)
 			o.Bytes = n
 			switch {
 			case setErr != nil:
@@ -1979,7 +2358,7 @@ func runCase(c *Case) (res lib.Result) {
 			}
 			return
 		}
-		data, err := compose.VerifC12Marshal(in)
+		data, err := wbMarshal(in)
 		if err != nil {
 			o = Obs{Class: "enc-error", Msg: err.Error()}
 			return
@@ -1988,7 +2367,7 @@ func runCase(c *Case) (res lib.Result) {
 		// the decoder walks Go maps (random order): the bytes are read several times and every
 		// reading must restore the value; the first reading that does not is the observation
 		for rep := 0; rep < decodeRepeats; rep++ {
-			out, err = compose.VerifC12Unmarshal(data)
+			out, err = wbUnmarshal(data)
 			if err != nil {
 				o = Obs{Class: "dec-error", Msg: err.Error(), Bytes: len(data)}
 				return
@@ -1998,6 +2377,53 @@ func runCase(c *Case) (res lib.Result) {
 			}
 		}
 		o.Class = "ok"
+		if c.Par > 0 && !c.TopNil && out != nil && equiv(rv, reflect.ValueOf(out), eqExact) {
+			// concurrent round trips of the same value: the first goroutine whose result is not the
+			// value (or an error, or a panic) supplies the observation
+			type parRes struct {
+				out any
+				o   Obs
+				bad bool
+			}
+			results := make([]parRes, c.Par)
+			var wg sync.WaitGroup
+			start := make(chan struct{})
+			for gi := 0; gi < c.Par; gi++ {
+				wg.Add(1)
+				go func(pr *parRes) {
+					defer wg.Done()
+					<-start
+					if pp := lib.Recover(func() {
+						for round := 0; round < parRounds && !pr.bad; round++ {
+							d, e := wbMarshal(in)
+							if e != nil {
+								pr.o, pr.bad = Obs{Class: "enc-error", Msg: e.Error()}, true
+								return
+							}
+							x, e := wbUnmarshal(d)
+							if e != nil {
+								pr.o, pr.bad = Obs{Class: "dec-error", Msg: e.Error(), Bytes: len(d)}, true
+								return
+							}
+							if x == nil || !equiv(rv, reflect.ValueOf(x), eqExact) {
+								pr.out, pr.o, pr.bad = x, Obs{Class: "ok", Bytes: len(d)}, true
+							}
+						}
+					}); pp != nil {
+						pr.o, pr.bad = Obs{Class: "panic", Msg: fmt.Sprint(pp)}, true
+					}
+				}(&results[gi])
+			}
+			close(start)
+			wg.Wait()
+			for _, pr := range results {
+				if pr.bad {
+					out, o = pr.out, pr.o
+					parNote = fmt.Sprintf(" (in one of %d concurrent round trips of the value; the sequential round trip restored it)", c.Par)
+					break
+				}
+			}
+		}
 	})
 	if p != nil {
 		o = Obs{Class: "panic", Msg: fmt.Sprint(p)}
@@ -2049,30 +2475,21 @@ func runCase(c *Case) (res lib.Result) {
 	switch {
 	case o.Class == "panic":
 		res.Oracle, res.Sig = "serialiser panicked: "+o.Msg, "panic"
+	case o.Class == "lost":
+		// second sentence of the property at the level of a run: what cannot be written is an error of the interrupt
+		res.Oracle, res.Sig = "a checkpoint that could not be written was not reported: "+o.Msg, "checkpoint-lost"
 	case o.Class == "ok-different":
 		res.Oracle, res.Sig = "decoded value differs from the encoded one (type "+o.Type+")", "ok-different"
 		if !c.TopNil && out != nil {
-			ov := reflect.ValueOf(out)
-			switch {
-			case hasInvalidUTF8Value(rv) && equiv(rv, ov, eqCoerce):
-				res.Oracle = "string value with invalid UTF-8 came back with U+FFFD substituted"
-				res.Sig = "invalid-utf8-coerced"
-			case equiv(rv, ov, eqRetype):
-				res.Oracle = "value of an unregistered defined container type held in an interface came back with the unnamed type"
-				res.Sig = "defined-container-retyped"
-			case equiv(rv, ov, eqPtrIface):
-				res.Oracle = "the value a pointer to an interface points to came back as a generic JSON value"
-				res.Sig = "ptr-to-interface-untyped"
-			case equiv(rv, ov, eqRetypePtr):
-				res.Oracle = "value of a defined pointer type (type P *T) held in an interface came back with the unnamed pointer type"
-				res.Sig = "defined-pointer-retyped"
-			case equiv(rv, ov, eqMapKey):
-				res.Oracle = "keys of a map whose key type is an interface / pointer type (or a struct whose JSON leaves a field out) came back as generic JSON values or collapsed"
-				res.Sig = "map-key-untyped"
+			if what, sig := knownDifference(rv, reflect.ValueOf(out)); sig != "" {
+				res.Oracle, res.Sig = what, sig
 			}
 		}
 	case supported && o.Class != "ok-equal":
 		res.Oracle, res.Sig = "supported value was rejected: "+o.Class+": "+o.Msg, "error-on-supported"
+	}
+	if res.Oracle != "" {
+		res.Oracle += parNote
 	}
 
 	// ---- model side
@@ -2092,6 +2509,9 @@ func runCase(c *Case) (res lib.Result) {
 	res.Tags = []string{"class:" + o.Class, fmt.Sprintf("ptrdepth:%d", st.ptrDepth), fmt.Sprintf("nest:%d", st.maxNest)}
 	if viaCP {
 		res.Tags = append(res.Tags, "via:checkpointer")
+	}
+	if c.Par > 0 && !viaCP && c.BB == 0 {
+		res.Tags = append(res.Tags, fmt.Sprintf("via:concurrent-%d", c.Par))
 	}
 	if c.BB != 0 {
 		res.Tags = append(res.Tags, fmt.Sprintf("via:interrupt-resume-%d", c.BB))
@@ -2142,6 +2562,26 @@ func runCase(c *Case) (res lib.Result) {
 	return
 }
 
+// knownDifference: is the difference between a written value and the value read back exactly one of
+// the recorded findings (every other part of the two values identical)?  Used by the serialiser
+// cases, the companion and the stream-conversion cases alike, so that one behaviour carries one
+// signature wherever the value travels.
+func knownDifference(rv, ov reflect.Value) (what, sig string) {
+	switch {
+	case hasInvalidUTF8Value(rv) && equiv(rv, ov, eqCoerce):
+		return "string value with invalid UTF-8 came back with U+FFFD substituted", "invalid-utf8-coerced"
+	case equiv(rv, ov, eqRetype):
+		return "value of an unregistered defined container type held in an interface came back with the unnamed type", "defined-container-retyped"
+	case equiv(rv, ov, eqPtrIface):
+		return "the value a pointer to an interface points to came back as a generic JSON value", "ptr-to-interface-untyped"
+	case equiv(rv, ov, eqRetypePtr):
+		return "value of a defined pointer type (type P *T) held in an interface came back with the unnamed pointer type", "defined-pointer-retyped"
+	case equiv(rv, ov, eqMapKey):
+		return "keys of a map whose key type is an interface / pointer type (or a struct whose JSON leaves a field out) came back as generic JSON values or collapsed", "map-key-untyped"
+	}
+	return "", ""
+}
+
 // runConv: a pending input of a node of output type any, as the stream a streaming run holds at
 // an interrupt, is converted for the checkpoint, written, read back and restored (hook
 // VerifC12ConvertRestore): the successor must be handed what it would have been handed without
@@ -2168,9 +2608,9 @@ func runConv(c *Case, w *world, in any, rv reflect.Value) (res lib.Result) {
 	var err error
 	p := lib.Recover(func() {
 		if written {
-			stored, restored, value, err = compose.VerifC12ConvertRestore(chunks, stream)
+			stored, restored, value, err = wbConvertRestore(chunks, stream)
 		} else {
-			stored, restored, value, err = compose.VerifC12ConvertRestoreValue(chunks[0], stream)
+			stored, restored, value, err = wbConvertRestoreValue(chunks[0], stream)
 		}
 	})
 	o := Obs{Class: "ok-equal"}
@@ -2201,8 +2641,21 @@ func runConv(c *Case, w *world, in any, rv reflect.Value) (res lib.Result) {
 			if !written {
 				what = fmt.Sprintf("the value %v (run without streams)", chunks[0])
 			}
-			res.Oracle = fmt.Sprintf("a pending input that was %s is handed to the successor as %v after the resume (through Stream: %v)", what, handed, stream)
+			types := func(l []any) (ts []string) {
+				for _, x := range l {
+					ts = append(ts, fmt.Sprintf("%T", x))
+				}
+				return
+			}
+			res.Oracle = fmt.Sprintf("a pending input that was %s is handed to the successor as %v after the resume (through Stream: %v; dynamic types written %v, handed on %v)", what, handed, stream, types(chunks), types(handed))
 			res.Sig = "ok-different"
+			// the chunk is an interface position: a value that the serialiser is known to retype there
+			// (recorded findings) is retyped here too - same signature, provided nothing else differs
+			if len(handed) == len(want) && len(want) == 1 && want[0] != nil && handed[0] != nil {
+				if kw, ksig := knownDifference(reflect.ValueOf(want[0]), reflect.ValueOf(handed[0])); ksig != "" {
+					res.Oracle, res.Sig = kw+" (stream conversion of a checkpoint value)", ksig
+				}
+			}
 		}
 	}
 	res.Obs = o
@@ -2230,7 +2683,7 @@ func runConv(c *Case, w *world, in any, rv reflect.Value) (res lib.Result) {
 	switch {
 	case stored == nil:
 		held = "0"
-	case compose.VerifC12IsNilChunk(stored):
+	case wbIsNilChunk(stored):
 		held = "1"
 	}
 	sc, ok1 := chunkCoq(chunks)
@@ -3052,6 +3505,9 @@ func genCase(r *lib.Rng, tier string, i int) *Case {
 			c.Malformed = append(c.Malformed, m)
 		}
 		sort.Strings(c.Malformed)
+		if i%6 == 2 {
+			c.BB = 1 + (i/6)%bbModes // a value the serialiser must refuse (or a recorded finding), inside a real run: the interrupt must fail loudly
+		}
 		return c
 	}
 	switch x := r.Intn(10); {
@@ -3088,11 +3544,14 @@ func genCase(r *lib.Rng, tier string, i int) *Case {
 		c.Malformed = append(c.Malformed, m)
 	}
 	sort.Strings(c.Malformed)
-	if len(c.Malformed) == 0 && i%6 == 2 {
-		c.BB = 1 + (i/6)%20 // through a real graph: interrupt, store, resume (see runBB)
+	if i%6 == 2 {
+		c.BB = 1 + (i/6)%bbModes // through a real graph: interrupt, store, resume (see runBB)
 	}
 	if len(c.Malformed) == 0 && i%12 == 5 {
 		c.Conv = 1 + (i/12)%10 // the value as a stream / as itself in a checkpoint (see runConv)
+	}
+	if len(c.Malformed) == 0 && i%12 == 11 {
+		c.Par = 2 + (i/12)%7 // concurrent round trips of the value (2..8 goroutines)
 	}
 	return c
 }
